@@ -10,6 +10,7 @@ import (
 	"context"
 	"fmt"
 	"reflect"
+	"slices"
 	"strconv"
 	"strings"
 	"sync"
@@ -195,7 +196,16 @@ func BindAny(source, target am.Api) (string, error) {
 
 			return
 		}
-		target.Set(states, e.Args)
+		if target.IsLocal() {
+			target.Set(states, e.Args)
+		} else {
+			// avoid network blocking, but keep the order of piped mutations
+			states = slices.Clone(states)
+			args := e.Args
+			forkOrdered(target, func() {
+				target.Set(states, args)
+			})
+		}
 	}
 	h := &struct {
 		AnyState am.HandlerFinal
